@@ -446,6 +446,19 @@ func applySetUpdates(dir string, opts GlobalOptions, id string, updates map[stri
 			}
 		}
 
+		if epicID, ok := updates["epic"]; ok && epicID != "" && !isEpic(task) {
+			if _, pruned := graph.Tombstones[epicID]; pruned {
+				return prunedErr(epicID)
+			}
+			epic, ok := graph.Tasks[epicID]
+			if !ok {
+				return fmt.Errorf("unknown epic id %s", epicID)
+			}
+			if !epic.IsEpic {
+				return fmt.Errorf("task %s is not an epic", epicID)
+			}
+		}
+
 		now := time.Now().UTC()
 
 		// Build events using pure function, passing I/O-dependent body resolver
